@@ -17,6 +17,8 @@ using namespace c08;
 
 static Run* R;
 static bool VERBOSE = false;
+static bool PROFILE = false;
+static inline void prof(const char* name, double t0) { if (PROFILE) R->count(name, (int64_t)((now() - t0) * 1e6)); }
 
 // ------------------------------------------------------------------ alphabet
 enum Kind { K_SEG, K_ARCC, K_ARCE, K_TURNL, K_TURNR, K_QUAD, K_CUBIC, K_QSM, K_CSM, K_BEZ, K_INTERP, K_PARG, K_PARN, NKINDS };
@@ -126,7 +128,7 @@ static void build(const Case& c, Built& b) {
     V pen = start;
     double heading = 0;
     V prevder = {0, 0};
-    bool have_prev = false, prev_numeric = false;
+    bool have_prev = false, prev_numeric = false, chain_approx = false;
     for (size_t si = 0; si < c.seq.size(); si++) {
         int k = c.seq[si].kind;
         double h = heading + (si ? JOINT[c.seq[si].joint] : 0.0);
@@ -206,7 +208,10 @@ static void build(const Case& c, Built& b) {
                 Vec2 pts[2] = {{q1.x, q1.y}, {q2.x, q2.y}};
                 Array<Vec2> arr = {};
                 arr.items = pts; arr.count = 2; arr.capacity = 0;
-                double angles[3] = {h, 0, 0};
+                // the start angle is given within pi of the chord direction (hobby_interpolation does not reduce
+                // the difference modulo 2 pi: an equivalent angle 2 pi away produces a looping curve - C15's subject)
+                double chord = atan2(q1.y - pen.y, q1.x - pen.x);
+                double angles[3] = {chord + remainder(h - chord, 2 * M_PI), 0, 0};
                 bool cons[3] = {true, false, false};
                 Vec2 tens[3] = {{1, 1}, {1, 1}, {1, 1}};
                 uint64_t before = p.subpath_array.count;
@@ -219,7 +224,8 @@ static void build(const Case& c, Built& b) {
                     const SubPath& sp = p.subpath_array[before + j];
                     if (sp.type != SubPathType::Bezier3) { b.construct_error = "interpolation section is not a cubic"; return; }
                     OSec s = OSec::bezier({V{sp.p0.x, sp.p0.y}, V{sp.p1.x, sp.p1.y}, V{sp.p2.x, sp.p2.y}, V{sp.p3.x, sp.p3.y}});
-                    if (len(s.ctrl[0] - via[j]) > 1e-9 || len(s.ctrl[3] - via[j + 1]) > 1e-9) b.construct_error = "interpolation does not pass through the given points";
+                    double t0 = (j == 0 && chain_approx) ? 2e-3 : 1e-9;  // the start is the path's current end point
+                    if (len(s.ctrl[0] - via[j]) > t0 || len(s.ctrl[3] - via[j + 1]) > 1e-9) b.construct_error = "interpolation does not pass through the given points";
                     added.push_back(s);
                 }
                 V d0 = added[0].der(0), d1 = added[0].der(1), d2 = added[1].der(0);
@@ -236,7 +242,8 @@ static void build(const Case& c, Built& b) {
         for (auto& s : added) {
             s.kind = k;
             s.numeric_grad = k == K_PARN;
-            s.approx = prev_numeric && forced_smooth(k);  // built from a numerically differentiated predecessor
+            if (prev_numeric && forced_smooth(k)) chain_approx = true;  // built from a numerically differentiated tangent;
+            s.approx = chain_approx;                                    // every later section starts from its (shifted) end point
             b.secs.push_back(s);
             for (int e = 0; e < c.nel; e++) { b.wim[e].push_back(wm[e]); b.oim[e].push_back(om[e]); }
         }
@@ -275,6 +282,17 @@ struct Viol { std::string sub, cls, detail; int el, kind; JFields extra; };
 static void report(const Case& c, const Viol& v) {
     JFields t = tags_of(c, v.el, v.kind);
     for (auto& e : v.extra) t.push_back(e);
+    // per root-cause counters (the emitted violation lines are capped per class; the counters are not)
+    std::string sig;
+    for (auto& e : v.extra) {
+        if (e.first == "offset_slope_jump_at_tangent_joint" && e.second == "true") sig += "J";
+        if (e.first == "nograd_section_with_offset_slope_at_end" && e.second == "true") sig += "N";
+        if (e.first == "taper_at_angled_joint" && e.second == "true") sig += "T";
+    }
+    if (v.sub.rfind("outline", 0) == 0 || v.cls == "centre_line") {
+        R->count("cause[" + (sig.empty() ? std::string("none") : sig) + "]:" + v.sub + "/" + v.cls + fmt(":tol=%g", TOLS[c.tol]));
+        if (sig.empty()) { static int shown = 0; if (shown++ < 40) fprintf(stderr, "UNCAUSED %s/%s %s | %s\n", v.sub.c_str(), v.cls.c_str(), replay_of(c).c_str(), v.detail.c_str()); }
+    }
     R->violation(v.sub, v.cls, t, case_json(c), v.detail, replay_of(c));
     if (VERBOSE) fprintf(stderr, "VIOLATION %s/%s el=%d: %s\n", v.sub.c_str(), v.cls.c_str(), v.el, v.detail.c_str());
 }
@@ -401,13 +419,16 @@ static void check_path_record(const Case& c, Built& b, std::vector<ElemOracle>& 
     const double aslack = approx ? 1e-3 * b.T.mag : 0;  // sections built from a numerically differentiated tangent
     for (int oas = 0; oas < 2; oas++) {
         std::string fn = R->scratch + fmt("/p%d.%s", (int)getpid(), oas ? "oas" : "gds");
+        double tw_ = now();
         ErrorCode ec = oas ? lib.write_oas(fn.c_str(), 1e-3, 0, 0) : lib.write_gds(fn.c_str(), 0, &ts);
         (void)ec;
+        prof("us_path_write", tw_);
         std::vector<Reread> rr;
         const char* F = oas ? "oas" : "gds";
         std::string sub = std::string("path.") + F;
+        double trd = now();
         bool ok = reread_paths(fn, oas, tol, rr);
-        unlink(fn.c_str());
+        prof("us_path_read", trd);
         if (!ok || (int)rr.size() != c.nel) {
             report(c, {sub, "records", fmt("expected %d PATH records in one cell, re-read %zu paths (ok=%d)", c.nel, rr.size(), ok), 0, -1, {{"format", jstr(F)}}});
             continue;
@@ -451,18 +472,33 @@ static void run_case(const Case& c) {
     // non-degeneracy: |offset| + half width <= 2.5 (x magnification) must stay below the curvature radius
     double rmin = min_curv_radius(b);
     if (VERBOSE) fprintf(stderr, "min curvature radius of the spine: %.4g\n", rmin);
-    if (rmin < 3.5) { R->count("dropped_degenerate"); R->outcome("dropped", seq_names(c.seq)); if (getenv("C08_LIST_DROPPED")) fprintf(stderr, "dropped %s rmin=%.3g\n", seq_names(c.seq).c_str(), rmin); return; }
+    if (rmin < 3.5) { R->count("dropped_degenerate"); R->outcome("dropped", seq_names(c.seq)); { static int noted = 0; if (noted++ < 1) R->note(fmt("dropped as degenerate (spine curvature radius %.3g < 3.5): %s", rmin, seq_names(c.seq).c_str())); } return; }
+    if (getenv("C08_ONLY_PREDICATE")) return;
     R->count("cases");
     if (is_nontrivial(c)) R->count("nontrivial");
     if (c.wk == 3 && c.ok != 0) R->count("nt_parametric_width_with_offset");
     if (c.tr != 0) R->count("nt_transformed");
     const double tol = TOLS[c.tol], g = 4 * tol;
 
+    double tq = now();
     check_queries(c, b);
     check_spine(c, b);
+    prof("us_queries_spine", tq);
 
+    if (VERBOSE) {  // what the joint searches of to_polygons return (private members; diagnostics only)
+        for (int e = 0; e < c.nel; e++)
+            for (uint64_t j = 0; j + 1 < b.path.subpath_array.count; j++) {
+                RobustPathElement& el = b.path.elements[e];
+                double u1 = 1, u2 = 0, v1 = 1, v2 = 0;
+                ErrorCode el_ = b.path.left_intersection(b.path.subpath_array[j], el.offset_array[j], el.width_array[j], b.path.subpath_array[j + 1], el.offset_array[j + 1], el.width_array[j + 1], u1, u2);
+                ErrorCode er_ = b.path.right_intersection(b.path.subpath_array[j], el.offset_array[j], el.width_array[j], b.path.subpath_array[j + 1], el.offset_array[j + 1], el.width_array[j + 1], v1, v2);
+                fprintf(stderr, "element %d joint %llu: left_intersection -> u(prev)=%.9g u(next)=%.9g code %d; right_intersection -> u(prev)=%.9g u(next)=%.9g code %d\n", e, (unsigned long long)j, u1, u2, (int)el_, v1, v2, (int)er_);
+            }
+    }
     Array<Polygon*> polys = {};
+    double tp = now();
     ErrorCode ec = b.path.to_polygons(false, 0, polys);
+    prof("us_to_polygons", tp);
     if (ec != ErrorCode::NoError) { R->count("warn_to_polygons_error_code"); R->outcome("outline", fmt("error code %d", (int)ec)); }
     if ((int)polys.count != c.nel) {
         report(c, {"outline", "polygon_count", fmt("%llu polygons for %d elements", (unsigned long long)polys.count, c.nel), 0, -1, {}});
@@ -470,10 +506,12 @@ static void run_case(const Case& c) {
     std::vector<ElemOracle> eo(c.nel);
     for (int e = 0; e < c.nel && e < (int)polys.count; e++) {
         ElemOracle& o = eo[e];
+        double ti = now();
         o.init(b.secs, b.wim[e], b.oim[e], b.T, NS, g, (int)ETYPE[c.end] == (int)EndType::Flush ? 0 : (int)ETYPE[c.end] == (int)EndType::HalfWidth ? 1 : (int)ETYPE[c.end] == (int)EndType::Extended ? 2 : 3,
                EXT_U * b.T.mag, EXT_V * b.T.mag);
+        prof("us_oracle_init", ti);
         if (!o.error.empty()) { R->internal_error("oracle: " + o.error + " in " + replay_of(c)); continue; }
-        if (!o.degenerate.empty()) { R->count("elements_skipped_degenerate_joint"); R->outcome("dropped", o.degenerate + ": " + seq_names(c.seq)); if (VERBOSE) fprintf(stderr, "element %d skipped: %s\n", e, o.degenerate.c_str()); continue; }
+        if (!o.degenerate.empty()) { R->count("elements_skipped_degenerate_joint"); R->outcome("dropped", o.degenerate + ": " + seq_names(c.seq)); { static int noted = 0; if (noted++ < 2) R->note(fmt("element %d skipped as degenerate (%s) in %s", e, o.degenerate.c_str(), replay_of(c).c_str())); } continue; }
         R->count("joints_trimmed", o.trimmed_joints); R->count("joints_extended", o.extended_joints);
         std::vector<V> pts;
         bool finite = true;
@@ -497,7 +535,9 @@ static void run_case(const Case& c) {
         JFields cause = {{"offset_slope_jump_at_tangent_joint", jbool(o.offset_slope_jump)}, {"nograd_section_with_offset_slope_at_end", jbool(o.nograd_offset_slope)},
                          {"taper_at_angled_joint", jbool(o.taper_at_angled_joint)}, {"warning_returned", jbool(ec != ErrorCode::NoError)}};
         // must-cover
+        double tm_ = now();
         Miss m = o.must_cover(pi);
+        prof("us_must_cover", tm_);
         R->count("must_cover_points", m.tested);
         if (m.count) {
             int kind = b.secs[m.sec].kind;
@@ -518,7 +558,9 @@ static void run_case(const Case& c) {
             fprintf(stderr, "oracle at the miss: c=(%.9g, %.9g) n=(%.9g, %.9g) hw=%.9g\n", sc.C[k].x, sc.C[k].y, sc.Nn[k].x, sc.Nn[k].y, sc.hw[k]);
         }
         // must-not-cover
+        double tn = now();
         Miss x = o.must_not_cover(pi);
+        prof("us_must_not_cover", tn);
         R->count("grid_points", x.tested);
         R->count("grid_points_covered", x.covered);
         if (x.count) {
@@ -531,7 +573,9 @@ static void run_case(const Case& c) {
     if (c.wk == 0 && (int)polys.count == c.nel) {
         bool okk = true;
         for (auto& o : eo) okk &= o.error.empty() && o.degenerate.empty();
+        double tr_ = now();
         if (okk) check_path_record(c, b, eo);
+        prof("us_path_record", tr_);
     }
     for (uint64_t i = 0; i < polys.count; i++) { polys[i]->clear(); free_allocation(polys[i]); }
     polys.clear();
@@ -566,7 +610,10 @@ static std::vector<Group> diagonal_groups() {
 }
 static const char* DIAG_DESC = "{(1 el,flush,1e-2,identity),(2,halfwidth,1e-3,rotate),(1,extended,1e-2,mirror),(2,round,1e-3,scale2),(1,round,1e-2,transform)}";
 
-static bool stage(const std::string& sub, int nsec, const std::vector<Group>& groups, const std::string& gdesc) {
+typedef std::vector<std::pair<int, int>> WO;
+static WO all_wo() { WO v; for (int wk = 0; wk < 4; wk++) for (int ok = 0; ok < 4; ok++) v.push_back({wk, ok}); return v; }
+static WO diag_wo() { return {{0, 0}, {1, 2}, {2, 3}, {3, 1}}; }
+static bool stage(const std::string& sub, int nsec, const std::vector<Group>& groups, const std::string& gdesc, const WO& wo = all_wo()) {
     auto seqs = sequences(nsec);
     int64_t n = (int64_t)seqs.size() * (int64_t)groups.size();
     auto mk = [&](int64_t i, int wk, int ok) {
@@ -577,13 +624,13 @@ static bool stage(const std::string& sub, int nsec, const std::vector<Group>& gr
         return c;
     };
     auto body = [&](int64_t i) {
-        for (int wk = 0; wk < 4; wk++) for (int ok = 0; ok < 4; ok++) run_case(mk(i, wk, ok));
+        for (auto& p : wo) run_case(mk(i, p.first, p.second));
     };
     PFOptions opt;
     opt.case_timeout_s = 30;
     opt.sub = sub;
-    bool ok = parallel_for(*R, n, body, [&](int64_t i) { return case_json(mk(i, 0, 0)); }, [&](int64_t i) { return replay_of(mk(i, 0, 0)) + " all_wo=1"; }, opt);
-    R->bound(sub, fmt("every sequence of %d section(s) from 13 kinds x joints {tangent,+45,-90} (%zu sequences) x width{const,linear,smooth,parametric} x offset{0,1.5,linear,smooth} x %s", nsec, seqs.size(), gdesc.c_str()), ok, n * 16);
+    bool ok = parallel_for(*R, n, body, [&](int64_t i) { return case_json(mk(i, 0, 0)); }, [&](int64_t i) { return replay_of(mk(i, 0, 0)) + (wo.size() == 16 ? " all_wo=1" : " all_wo=2"); }, opt);
+    R->bound(sub, fmt("every sequence of %d section(s) from 13 kinds x joints {tangent,+45,-90} (%zu sequences) x %s x %s", nsec, seqs.size(), wo.size() == 16 ? "width{const,linear,smooth,parametric} x offset{0,1.5,linear,smooth}" : "(width,offset) in {(const,0),(linear,linear),(smooth,smooth),(parametric,1.5)}", gdesc.c_str()), ok, n * (int64_t)wo.size());
     return ok;
 }
 
@@ -609,10 +656,11 @@ int main(int argc, char** argv) {
     Run run("C08", argc, argv);
     R = &run;
     error_logger = NULL;
+    PROFILE = getenv("C08_PROFILE") != NULL;
     if (run.replaying()) {
         VERBOSE = true;
         Case c = parse_case(run);
-        if (run.rarg("all_wo") == "1") { for (int wk = 0; wk < 4; wk++) for (int ok = 0; ok < 4; ok++) { c.wk = wk; c.ok = ok; run_case(c); } }
+        if (run.rarg("all_wo") == "1" || run.rarg("all_wo") == "2") { for (auto& p : (run.rarg("all_wo") == "1" ? all_wo() : diag_wo())) { c.wk = p.first; c.ok = p.second; run_case(c); } }
         else { fprintf(stderr, "replaying %s\n  %s\n", replay_of(c).c_str(), case_json(c).c_str()); run_case(c); }
         return run.finish();
     }
@@ -623,7 +671,7 @@ int main(int argc, char** argv) {
         stage("seq2", 2, diagonal_groups(), DIAG_DESC);
     } else {
         stage("seq2", 2, full_groups(), full);
-        if (!run.out_of_time()) stage("seq3", 3, diagonal_groups(), DIAG_DESC);
+        if (!run.out_of_time()) stage("seq3", 3, diagonal_groups(), DIAG_DESC, diag_wo());
     }
     return run.finish();
 }
